@@ -24,7 +24,11 @@ ASSUMPTIONS = [
 PROFILE = scenario.profile(maxD=3, p_cons=1.0, extra_budget=(5, 70), max_iter_choices=(None, None, 3), tol_mesh_choices=(None,),
                            cons_x0=("margin", "margin", "margin", "boundary", "infeasible", "snap_only"),
                            noise_modes=("none", "none", "auto", "declared", "specified"), specified_spellings=("both", "alone"),
-                           c_classes=("inside", "hardbox", "on_bound", "outside"))
+                           c_classes=("inside", "hardbox", "on_bound", "outside"),
+                           # large initial designs put many design points next to the constraint boundary (snapping can cross it)
+                           p_fes=0.3, fes_choices=(0, 1, "2D", 10, 64, 256),
+                           # 'gridhalf': only mesh nodes beyond a threshold are infeasible (feasibility before vs after snapping differs)
+                           cons_kinds=("ball", "ball", "half", "band", "annulus", "union2", "checker", "gridhalf", "gridhalf"))
 N = {"quick": 320, "thorough": 5000}
 MARGIN = 1e-9
 INFEASIBLE_MSG = "does not satisfy non-bound constraints"
